@@ -354,6 +354,8 @@ def _subst_closures_call_only(node, clos, state):
             assigned = _assigned_locals(cl["body"])
             only = _bound_ids(cl)
             for p, a in zip(params, args):
+                if p.get("k") == "p_wild" and _simple(a):
+                    continue                      # `|_| ..` applied to a plain value: nothing to bind, nothing to evaluate
                 if p.get("k") == "p_bind" and "sub" not in p and p.get("id") not in assigned and _simple(a):
                     subst[p["id"]] = a
                 else:
@@ -730,7 +732,19 @@ def apply(facts):
             notes0.append("%d use(s) of local closures (`let f = |..| ..`) are analysed at their use sites" % n)
     except Exception as e:
         notes0.append("local-closure inlining disabled: %s" % e)
-    return notes0 + _apply_helpers(facts)
+    notes1 = _apply_helpers(facts)
+    # closures that arrived as arguments of inlined helpers (`let keep = |_| true;` in front of the helper's body): apply them in place
+    # too and fold the conditions that became literal
+    try:
+        if _inline_local_closures(facts):
+            for g in facts.fn_list:
+                if g.body is not None and g.absorbed_fns:
+                    g.body = _fold(g.body)
+                    g.d["body"] = g.body
+                    g._canon_env = None
+    except Exception as e:
+        notes1.append("second closure pass disabled: %s" % e)
+    return notes0 + notes1
 
 
 def _apply_helpers(facts):
